@@ -470,9 +470,12 @@ pub fn cfgs_for(kind: Kind, droppy: bool) -> Vec<(usize, usize)> {
     if droppy { CFGS_DROP.to_vec() } else { CFGS.to_vec() }
 }
 
-/// a waker that does nothing (for polling futures the harness re-polls by itself)
+/// a waker that does nothing (for polling futures the harness re-polls by itself). One single, never-freed object: the library
+/// reads its per-stream waker table without the lock under which a *different* waker replaces (and drops) the stored one, so
+/// handing it short-lived wakers would make the monitor's own objects the victim of that race.
 pub fn noop_waker() -> Waker {
     struct N;
-    impl std::task::Wake for N { fn wake(self: Arc<Self>) {} }
-    Waker::from(Arc::new(N))
+    impl std::task::Wake for N { fn wake(self: Arc<Self>) {} fn wake_by_ref(self: &Arc<Self>) {} }
+    static W: std::sync::OnceLock<Waker> = std::sync::OnceLock::new();
+    W.get_or_init(|| Waker::from(Arc::new(N))).clone()
 }
